@@ -120,7 +120,12 @@ impl Scenario for Chain {
         let mut r = Rng::for_run(seed, self.tag(), run);
         let (vals, filters) = opgen::value_profile(&mut r);
         let nregs = r.urange(2, 6);
-        let regs: Vec<MVal> = (0..nregs).map(|_| gen::gen_doc(&mut r, &vals, 70).norm()).collect();
+        let mut regs: Vec<MVal> = (0..nregs).map(|_| gen::gen_doc(&mut r, &vals, 70).norm()).collect();
+        // one history in 20,000 carries a document with a payload at the 2^24-byte boundary of the entry length field
+        let huge = r.chance(1, 20_000);
+        if huge {
+            regs[0] = gen::gen_huge_payload(&mut r);
+        }
         let mut kinds: Vec<&'static str> = CHAIN_KINDS.iter().copied().filter(|_| r.chance(1, 2)).collect();
         if kinds.is_empty() {
             kinds.push(*r.pick(CHAIN_KINDS));
@@ -129,7 +134,7 @@ impl Scenario for Chain {
         if r.chance(1, 2) && !kinds.contains(&"select") {
             kinds.push("select");
         }
-        let len = *r.pick(&[1usize, 2, 3, 5, 8, 12, 20, 40]);
+        let len = if huge { *r.pick(&[1usize, 2, 3, 5]) } else { *r.pick(&[1usize, 2, 3, 5, 8, 12, 20, 40]) };
         let ocfg = OpGenCfg { kinds: &kinds, vals: &vals, filters, fail_pct: *r.pick(&[0u64, 5, 15]) };
         let text_pct = *r.pick(&[0u64, 0, 0, 20, 50]);
         // generation follows the model so that arguments are chosen from the *current* documents
